@@ -191,22 +191,6 @@ def defaults : Settings where
   cli := ⟨true, "hledger", 30 * 1000 * millisecond⟩
   limits := defaultLimits
 
-/-- `normalizeServerSettings` -/
-def normalize (s : Settings) : Settings :=
-  let s := if s.completion.maxResults ≤ 0 then
-    { s with completion := { s.completion with maxResults := defaults.completion.maxResults } } else s
-  let s := if s.formatting.indentSize ≤ 0 then
-    { s with formatting := { s.formatting with indentSize := defaults.formatting.indentSize } } else s
-  let s := if s.cli.path = "" then
-    { s with cli := { s.cli with path := defaults.cli.path } } else s
-  let s := if s.cli.timeout ≤ 0 then
-    { s with cli := { s.cli with timeout := defaults.cli.timeout } } else s
-  let s := if s.limits.maxFileSizeBytes ≤ 0 then
-    { s with limits := { s.limits with maxFileSizeBytes := defaults.limits.maxFileSizeBytes } } else s
-  let s := if s.limits.maxIncludeDepth ≤ 0 then
-    { s with limits := { s.limits with maxIncludeDepth := defaults.limits.maxIncludeDepth } } else s
-  s
-
 /-! ## The key tree -/
 
 /-- One constructor per field of `serverSettings`. -/
@@ -353,6 +337,15 @@ def normLeaf (l : Leaf) (v : Val) : Val :=
   match normRules.lookup l with
   | some c => if c.holds v then get defaults l else v
   | none => v
+
+/-- one statement of `normalizeServerSettings`:
+    `if settings.F <cond> { settings.F = defaults.F }` -/
+def resetIf (s : Settings) (r : Leaf × NormCond) : Settings :=
+  if r.2.holds (get s r.1) then set s r.1 (get defaults r.1) else s
+
+/-- `normalizeServerSettings`: its six statements, in order (`normRules` is compared with the
+    source by the op `c19.keys`). -/
+def normalize (s : Settings) : Settings := normRules.foldl resetIf s
 
 /-- One `if value, ok := toX(m["key"]); ok { settings.F = … }` statement of `applySettingsMap`.
     `group = some g`: the statement sits inside `if gRaw, ok := raw[g].(map[string]interface{}); ok`
@@ -537,6 +530,36 @@ def runTask (σ : Srv) (i : Nat) (reply : Pull) : Except Panic Srv := do
   let σ ← stepTask σ i reply
   let σ ← stepTask σ i reply
   stepTask σ i reply
+
+/-- What can happen to the server, as far as configuration goes.  Client messages are handled
+    one at a time by the read loop; every `task` event is one atomic step of one background
+    goroutine, so a list of events is an arbitrary interleaving. -/
+inductive Event where
+  | init (p : Option InitParams)
+  | initialized
+  | didChangeConfiguration (settings : Json)     -- the notification's own payload
+  | task (i : Nat) (reply : Pull)
+  deriving Repr
+
+def step (σ : Srv) : Event → Except Panic Srv
+  | .init p => (initializeSrv σ p).map (·.1)
+  | .initialized => .ok (spawnRefresh σ)
+  | .didChangeConfiguration _ => .ok (spawnRefresh σ)
+  | .task i r => stepTask σ i r
+
+def run (σ : Srv) : List Event → Except Panic Srv
+  | [] => .ok σ
+  | e :: es =>
+    match step σ e with
+    | .ok σ' => run σ' es
+    | .error p => .error p
+
+/-- the events of one configuration change handled without interleaving: the notification,
+    then the five steps of the task it spawned (which has index `n`), the client answering
+    with `reply` -/
+def changeEvents (n : Nat) (pushed : Json) (reply : Pull) : List Event :=
+  [.didChangeConfiguration pushed, .task n reply, .task n reply, .task n reply, .task n reply,
+   .task n reply]
 
 /-- `shouldIncludeDiagnostic` -/
 def shouldIncludeDiagnostic (code : String) (d : Diagnostics) : Bool :=
